@@ -1564,6 +1564,10 @@ class Interp:
         except NeedFork as nf:
             del self._buf[mark:]
             outs = []
+            # every case split re-executes the statement with one more decision; a statement whose re-execution keeps asking NEW
+            # questions (fresh terms in the condition each time) would never settle
+            if len(st.decisions) > 48:
+                raise Unsupported(f"case splits of the statement at line {getattr(s, 'lineno', '?')} do not settle (more than 48 decisions on one path)")
             for b in (True, False):
                 s2 = st.fork()
                 c = nf.cond if b else z3.Not(nf.cond)
